@@ -323,7 +323,7 @@ pub fn gen_mhist(rng: &mut Rng, with_rewrites: bool) -> MHist {
 
 /// `with_q`: few operators incl. the four-slot leaf `q`, four names (classes with >= 4 slots and symmetries on some of them only)
 pub fn gen_mhist_q(rng: &mut Rng, with_rewrites: bool, with_q: bool) -> MHist {
-    let ns = if with_q { 4 } else { rng.range(2, 3) };
+    let ns = if with_q { 4 } else { rng.range(2, 4) };
     let ops: Vec<&'static str> = if with_q { vec!["q", "h", "g", "f", "k", "c", "u", "lam", "app", "pair"] } else { vec!["f", "g", "h", "k", "var", "c", "d", "u", "w", "app", "pair", "lam", "sum", "let", "idx"] };
     let cfg = GenCfg { lang: &LSYM, ops, ns, max_depth: 2, max_names: 4, shadow: rng.chance(1, 3) };
     let h = gen_history(rng, &cfg, 6, 5);
@@ -818,6 +818,19 @@ pub fn c13_hist_case(rng: &mut Rng) -> CaseOut {
                 for (a, b, at) in &recorded {
                     if !eg.eq(&ids[a], &ids[b]) {
                         return Err(("equality-lost".into(), format!("after step {step} ({}): {} = {} held after step {at} and is not reported any more", text[step], h.terms[*a].text(lang, &pname), h.terms[*b].text(lang, &pname))));
+                    }
+                }
+                // the same equalities at the level of the terms: looked up afresh, both terms are found, equal to each other and
+                // to the handles that insertion returned
+                for (a, b, at) in &recorded {
+                    let la = lookup_rec_expr(&crate::sym::to_rec::<LSym>(lang, &h.terms[*a]), &eg);
+                    let lb = lookup_rec_expr(&crate::sym::to_rec::<LSym>(lang, &h.terms[*b]), &eg);
+                    let ok = match (&la, &lb) {
+                        (Some(x), Some(y)) => eg.eq(x, y) && eg.eq(x, &ids[a]) && eg.eq(y, &ids[b]),
+                        _ => false,
+                    };
+                    if !ok {
+                        return Err(("equality-lost-for-terms".into(), format!("after step {step} ({}): {} = {} held after step {at}; looked up afresh the two terms give {la:?} and {lb:?} (handles {:?}, {:?})", text[step], h.terms[*a].text(lang, &pname), h.terms[*b].text(lang, &pname), ids[a], ids[b])));
                     }
                 }
                 for k in &keys {
